@@ -210,11 +210,14 @@ class FuncAnalysis:
                 self.env[p.arg] = AV.root(f"ctor:{self.cls.name}.{p.arg}")
             else:
                 self.env[p.arg] = AV.root(f"p:{p.arg}", self._param_kind(p.arg))
+        # constructor arguments of an ordinary class live on in the fields: their roots are 'ctor:' roots, bound again at every
+        # method call on the constructed instance (also for *args / **kwargs)
+        pre = f"ctor:{self.cls.name}." if (self.cls is not None and self.fi.name == "__init__" and not self.is_acc) else "p:"
         if a.vararg:
-            self.env[a.vararg.arg] = AV("PY", elem=lump({(f"p:*{a.vararg.arg}", "B")}))
+            self.env[a.vararg.arg] = AV("PY", elem=lump({(f"{pre}*{a.vararg.arg}", "B")}))
         if a.kwarg:
             # **kwargs is a fresh dict; its values are the caller's objects
-            self.env[a.kwarg.arg] = AV("PY", elem=lump({(f"p:**{a.kwarg.arg}", "B")}))
+            self.env[a.kwarg.arg] = AV("PY", elem=lump({(f"{pre}**{a.kwarg.arg}", "B")}))
         self.block(self.fi.node.body)
         self.out.ret = self.ret
         return self.out
@@ -988,25 +991,33 @@ class FuncAnalysis:
             if isinstance(sym, FuncInfo) and not self._is_local(recv_e):
                 return self.call_internal(sym, args, kws, e, star_kw=star_kw)
             if isinstance(sym, ClassInfo) and not self._is_local(recv_e):
-                return self.construct(sym, args, kws, e)
+                return self.construct(sym, args, kws, e, star_kw)
             if isinstance(sym, tuple) and sym[0] == "ext" and not self._is_local(recv_e):
                 return self.call_external(sym[1], name, args, kws, e, star_kw)
             recv = self.ev(recv_e)
             return self.call_method(recv, recv_e, fn.attr, args, kws, e, star_kw)
         if isinstance(fn, ast.Name):
             if fn.id in self.env:
+                fv = self.env[fn.id]
+                dunder = fv.inst.methods.get("__call__") if getattr(fv, "inst", None) is not None else None
+                if dunder is not None:
+                    # calling an instance of a package class:  wp = WavePlot(..); wp()
+                    return self.call_internal(dunder, args, kws, e, self_av=fv, star_kw=star_kw)
                 self.eng.unresolved += 1
                 return self.unknown_call(args, kws, star_kw)
             sym = self.repo.resolve_symbol(self.mod, fn.id)
             if isinstance(sym, FuncInfo):
                 return self.call_internal(sym, args, kws, e, star_kw=star_kw)
             if isinstance(sym, ClassInfo):
-                return self.construct(sym, args, kws, e)
+                return self.construct(sym, args, kws, e, star_kw)
             if isinstance(sym, tuple) and sym[0] == "ext":
                 return self.call_external(sym[1], name, args, kws, e, star_kw)
             return self.call_builtin(fn.id, args, kws, e, star_kw)
         # call of a call result / subscript (e.g. globals()[name](...), getattr(x, m)(...))
         f = self.ev(fn)
+        dunder = f.inst.methods.get("__call__") if getattr(f, "inst", None) is not None else None
+        if dunder is not None:
+            return self.call_internal(dunder, args, kws, e, self_av=f, star_kw=star_kw)
         self.eng.unresolved += 1
         r = self.unknown_call(args + [f], kws, star_kw)
         return r
@@ -1080,17 +1091,31 @@ class FuncAnalysis:
             return sv
         return fresh("SC") if name in X.BUILTIN_FRESH or name in ("isinstance", "len") else fresh("TOP")
 
-    def construct(self, cls, args, kws, e):
+    def construct(self, cls, args, kws, e, star_kw=()):
         self.eng.resolved += 1
         init = cls.methods.get("__init__")
         ctor = {}
         if init is not None:
             ps = init.params[1:]
+            va = init.node.args.vararg.arg if init.node.args.vararg else None
+            kwn = init.node.args.kwarg.arg if init.node.args.kwarg else None
             for i, a in enumerate(args):
                 if i < len(ps):
                     ctor[ps[i]] = a
+                elif va:
+                    ctor[f"*{va}"] = join(ctor.get(f"*{va}"), a)
             for k, v in kws.items():
-                ctor[k] = v
+                if k in ps or not kwn:
+                    ctor[k] = v
+                else:
+                    ctor[f"**{kwn}"] = join(ctor.get(f"**{kwn}"), v)
+            for s_ in star_kw:
+                sv = self.iter_elem(s_, None) if s_.kind in ("PY",) and (s_.elem is not None or s_.items) else lump(s_.all_pairs())
+                for p_ in ps:
+                    if p_ not in ctor:
+                        ctor[p_] = sv
+                if kwn:
+                    ctor[f"**{kwn}"] = join(ctor.get(f"**{kwn}"), sv)
             # effects of __init__ itself
             self.apply_summary(init, {f"ctor:{cls.name}.{k}": v for k, v in ctor.items()}, e, self_av=None)
         if cls.name in ACCESSOR_CLASSES:
